@@ -712,7 +712,7 @@ fn cold_thread(t: usize, variant: u64, x: u64) {
     // on the variant: nothing process-wide may remember a signature check by function name
     let same_sig = if variant == 0 { "fn same(x: u64) -> u64 { x + 1 }" } else { "fn same(x: u32) -> u32 { x + 2 }" };
     let src = format!(
-        "fn f{t}(x: u64) -> u64 {{ x + {t} }}\nfn g{t}(v: Tr, x: u64) -> u64 {{ val(v) + x }}\nfn h{t}(a: String, b: bool) -> String? {{ if b {{ Some(a) }} else {{ None }} }}\nfn l{t}(l: List[u64]) -> u64 {{ l.len() }}\nfn i{t}(x: i32) -> i32 {{ x }}\nfn o{t}(x: u64) -> u64? {{ if x > 3 {{ Some(x) }} else {{ None }} }}\nfiltermap v{t}(x: u64) {{ if x > 3 {{ accept x }} else {{ reject }} }}\nfiltermap w{t}(x: u64) {{ if x > 3 {{ accept }} else {{ reject x }} }}\nfn ls{t}(a: String) -> List[String] {{ [a, a] }}\n{same_sig}\n"
+        "fn f{t}(x: u64) -> u64 {{ x + {t} }}\nfn g{t}(v: Tr, x: u64) -> u64 {{ val(v) + x }}\nfn h{t}(a: String, b: bool) -> String? {{ if b {{ Some(a) }} else {{ None }} }}\nfn l{t}(l: List[u64]) -> u64 {{ l.len() }}\nfn i{t}(x: i32) -> i32 {{ x }}\nfn o{t}(x: u64) -> u64? {{ if x > 3 {{ Some(x) }} else {{ None }} }}\nfiltermap v{t}(x: u64) {{ if x > 3 {{ accept x }} else {{ reject }} }}\nfiltermap w{t}(x: u64) {{ if x > 3 {{ accept }} else {{ reject x }} }}\nfn ls{t}(a: String) -> List[String] {{ [a, a] }}\nfn dp{t}(x: u64) -> List[List[i16]?] {{ [Some([1, 2]), None] }}\n{same_sig}\n"
     );
     let pkg = {
         let _cg = alloc::ModeGuard::new(alloc::MODE_COMPILE);
@@ -743,6 +743,11 @@ fn cold_thread(t: usize, variant: u64, x: u64) {
     let l = format!("l{t}");
     let i = format!("i{t}");
     let tt = t as u64;
+    // a composite type three levels deep, none of whose levels the process has seen before, looked
+    // up by every thread first: the levels are registered one after the other
+    let dp = format!("dp{t}");
+    check(&dp, "fn(u64) -> List<Option<List<i16>>>", true, pkg.get_function::<fn(u64) -> List<Option<List<i16>>>>(&dp).map(|k| { let l = k.call(x); let n = l.len() as u64; drop(l); Some(n) }).map_err(|e| e.to_string()), Some(2));
+    check(&dp, "fn(u64) -> List<Option<List<u16>>>", false, pkg.get_function::<fn(u64) -> List<Option<List<u16>>>>(&dp).map(|_| None).map_err(|e| e.to_string()), None);
     check(&f, "fn(u64) -> u64", true, pkg.get_function::<fn(u64) -> u64>(&f).map(|k| Some(k.call(x))).map_err(|e| e.to_string()), Some(x + tt));
     check(&f, "fn(u32) -> u64", false, pkg.get_function::<fn(u32) -> u64>(&f).map(|_| None).map_err(|e| e.to_string()), None);
     check(&f, "fn(u64) -> Option<u64>", false, pkg.get_function::<fn(u64) -> Option<u64>>(&f).map(|_| None).map_err(|e| e.to_string()), None);
